@@ -15,6 +15,7 @@ import KafkaVerif.Base.Bytes
 import KafkaVerif.Model.GroupBalancer
 import KafkaVerif.Spec.GroupAssign
 import KafkaVerif.Model.GroupGlue
+import KafkaVerif.Model.GroupWire
 
 namespace KV.OracleC14
 open KV KV.GroupBalancer KV.Spec.GroupAssign
@@ -113,6 +114,10 @@ def glueTable (m : Asg) (ids ts : List Nat) : List (Nat × KV.GroupGlue.TopicMap
     | some e => KV.GroupGlue.decodeAssignment e.2
     | none => [])
 
+/-- `makeAssignments` applied to every member's received map with that member's own topic list -/
+def viewTable (ms : List Member) (tb : List (Nat × KV.GroupGlue.TopicMap)) : List (Nat × KV.GroupGlue.TopicMap) :=
+  tb.map fun e => (e.1, KV.GroupGlue.makeAssignments (((ms.find? (·.id == e.1)).map (·.topics)).getD []) e.2)
+
 def asgOfTable (tb : List (Nat × KV.GroupGlue.TopicMap)) : Asg :=
   fun t id => match tb.find? (·.1 == id) with
     | some e => (KV.GroupGlue.mapGet t e.2).getD []
@@ -148,10 +153,97 @@ def stepHelper (op a b impl : String) : String :=
     | _, _, _ => "bad-args"
   | _ => "bad-op"
 
+/-! ### byte level (Model/GroupWire.lean) -/
+
+def hexOr (b : Bytes) : String := if b.isEmpty then "-" else toHex b
+
+def parseXBytes (s : String) : Option Bytes :=
+  if s.startsWith "x" then
+    let h := (s.drop 1).toString
+    if h.isEmpty then some [] else ofHex h
+  else none
+
+def parseWEntry (s : String) : Option (Bytes × List Int) :=
+  match s.splitOn "=" with
+  | [n, vs] => match parseXBytes n, parseInts vs with
+    | some n, some vs => some (n, vs)
+    | _, _ => none
+  | _ => none
+
+def showEntry (e : Bytes × List Int) : String :=
+  s!"x{toHex e.1}={if e.2.isEmpty then "-" else showInts e.2}"
+
+/-- Go map semantics of `content[key] = values` over the entries in wire order, rendered sorted by hex name -/
+def renderEntries (es : List (Bytes × List Int)) : String :=
+  let m := es.foldl (fun acc e => (acc.filter (fun x => x.1 != e.1)) ++ [e]) ([] : List (Bytes × List Int))
+  let strs := (m.map showEntry).mergeSort (fun a b => decide (a ≤ b))
+  if strs.isEmpty then "-" else ";".intercalate strs
+
+def renderRead {α : Type} (res : Except KV.Reader.Err α × KV.Reader.RS) (f : α → String) : String :=
+  match res.1 with
+  | .ok a => s!"ok|{f a}|r{res.2.sz}"
+  | .error _ => "err"
+
+def stepWire (ws : List String) (impl : String) : String :=
+  match ws with
+  | ["abytes", es] =>
+    match parseList parseWEntry es, ofHex impl with
+    | some es, some b =>
+      -- Go picks the order of the entries: decode the bytes with the reader model, the decoded entries must be a
+      -- permutation of the requested ones and the writer model must produce exactly these bytes for that order
+      let dec := KV.GroupWire.readAssignment ⟨b, b.length⟩
+      let order := match dec.1 with
+        | .ok (_, es', _) => if decide (es'.Perm es) then es' else es
+        | .error _ => es
+      let model := KV.GroupWire.writeAssignment ⟨1, order, none⟩
+      answer (hexOr model) (model == b && dec.2.sz == 0 && dec.2.inp.isEmpty)
+    | _, _ => "bad-args"
+  | ["aread", hx, want] =>
+    match ofHex hx with
+    | some b =>
+      let dec := KV.GroupWire.readAssignment ⟨b, b.length⟩
+      let model := renderRead dec fun (v, es, u) => s!"v{v}|{renderEntries es}|u{hexOr u}"
+      let holds := if want == "?" then impl == model
+        else match parseList parseWEntry want with
+          | some es => impl == s!"ok|v1|{renderEntries es}|u-|r0"
+          | none => false
+      answer model holds
+    | none => "bad-args"
+  | ["mbytes", ts, ud] =>
+    match parseList parseXBytes ts, (if ud == "nil" then some none else (parseXBytes ud).map some) with
+    | some ts, some u => let model := hexOr (KV.GroupWire.writeMetadata ⟨1, ts, u⟩); answer model (impl == model)
+    | _, _ => "bad-args"
+  | ["mread", hx, ts, ud] =>
+    match ofHex hx with
+    | some b =>
+      let dec := KV.GroupWire.readMetadata ⟨b, b.length⟩
+      let showTs (l : List Bytes) : String := if l.isEmpty then "-" else ";".intercalate (l.map fun t => "x" ++ toHex t)
+      let model := renderRead dec fun (v, l, u) => s!"v{v}|{showTs l}|u{hexOr u}"
+      let holds := if ts == "?" then impl == model
+        else match parseList parseXBytes ts, (if ud == "nil" then some [] else parseXBytes ud) with
+          | some l, some u => impl == s!"ok|v1|{showTs l}|u{hexOr u}|r0"
+          | _, _ => false
+      answer model holds
+    | none => "bad-args"
+  | _ => "bad-op"
+
 def step (line : String) : String :=
   match line.splitOn " => " with
   | [req, impl] =>
     match words req with
+    | "abytes" :: _ => stepWire (words req) impl
+    | "aread" :: _ => stepWire (words req) impl
+    | "mbytes" :: _ => stepWire (words req) impl
+    | "mread" :: _ => stepWire (words req) impl
+    | ["xtopics", a] =>
+      match parseList parseMember a, parseNats impl with
+      | some rms, some got =>
+        let ms : List Member := rms.map fun r => ⟨0, r.topics, r.zone⟩
+        let model := KV.GroupGlue.extractTopics ms
+        -- reference: ascending, and exactly the topics somebody lists
+        let want := sortDedup (ms.flatMap (·.topics))
+        answer (if model.isEmpty then "-" else ",".intercalate (model.map toString)) (got == want)
+      | _, _ => "bad-args"
     | ["fmbt", a, b] => stepHelper "fmbt" a b impl
     | ["fparts", a, b] => stepHelper "fparts" a b impl
     | [op, msS, psS] =>
@@ -169,16 +261,21 @@ def step (line : String) : String :=
         let ok := impl != "panic"
         -- ops g<balancer>: the same group run through the real leader glue; `impl` is what the members RECEIVED;
         -- the model is the balancer model pushed through Model/GroupGlue (topics32 iterated in reverse order)
-        let viaGlue := op.startsWith "g"
+        -- ops v<balancer>: as g<balancer>, `impl` is Generation.Assignments of every member (after makeAssignments);
+        -- the model applies `GroupGlue.makeAssignments` with the member's own topic list to its table entry
+        let viaView := op.startsWith "v" || op.startsWith "l"   -- l<balancer>: the same view, observed on real concurrent ConsumerGroups
+        let viaGlue := op.startsWith "g" || viaView
         let bop := if viaGlue then (op.drop 1).toString else op
         -- `thru m` = `KV.GroupGlue.delivered List.reverse m ids ts` evaluated through a table (see `glueTable`)
         -- (the table is bound as data at each use so that it is computed once, not once per lookup)
         match bop with
         | "range" =>
-          let tb := if viaGlue then glueTable (rangeAssign ms ps) ids ts else []
+          let tb0 := if viaGlue then glueTable (rangeAssign ms ps) ids ts else []
+          let tb := if viaView then viewTable ms tb0 else tb0
           answer (render (if viaGlue then asgOfTable tb else rangeAssign ms ps) idsH ts) (ok && (!wf || rangeHoldsOn ms ps a ts ids))
         | "rr" =>
-          let tb := if viaGlue then glueTable (rrAssign ms ps) ids ts else []
+          let tb0 := if viaGlue then glueTable (rrAssign ms ps) ids ts else []
+          let tb := if viaView then viewTable ms tb0 else tb0
           answer (render (if viaGlue then asgOfTable tb else rrAssign ms ps) idsH ts) (ok && (!wf || rrHoldsOn ms ps a ts ids))
         | "rack" =>
           let zs := sortDedup (ms.map (·.zone) ++ ps.map (·.zone))
@@ -186,7 +283,8 @@ def step (line : String) : String :=
           let m : Asg := fun t id => match per.find? (·.1 == t) with
                                      | some (_, some es) => collect id es
                                      | _ => []
-          let tb := if viaGlue then glueTable m ids ts else []
+          let tb0 := if viaGlue then glueTable m ids ts else []
+          let tb := if viaView then viewTable ms tb0 else tb0
           let model : String :=
             if per.any (·.2.isNone) then "panic"
             else render (if viaGlue then asgOfTable tb else m) idsH ts
